@@ -56,6 +56,20 @@ def run : P String := do
       match bhjmCircle 200 f d c x with
       | some v => pure (out v)
       | none => pure "no-convergence"
+  | "cel0" => do
+      let kc ← flt; let p ← flt; let c ← flt; let s ← flt
+      match cel0 200 kc p c s with
+      | some v => pure s!"{v.toBits}"
+      | none => pure "none"
+  | "celiter" => do
+      let k ← nat
+      let mut rows : List (CelRow Float) := []
+      for _ in [0:k] do
+        let qc ← flt; let p ← flt; let g ← flt; let cc ← flt; let ss ← flt; let em ← flt; let kk ← flt
+        rows := rows ++ [{ qc := qc, p := p, g := g, cc := cc, ss := ss, em := em, kk := kk }]
+      match celIterDispatch 200 rows with
+      | some vs => pure (" ".intercalate (vs.map fun v => s!"{v.toBits}"))
+      | none => pure "no-convergence"
   | "cuboidmask" => do
       let d ← v3; let p ← v3; let x ← v3
       let m := cuboidMasks d p x
